@@ -255,7 +255,7 @@ Definition base_pub (h : hcfg) (pb : pubbeh) : pfun :=
   | PReal id _ => fun t outs => ([EPublish id t outs],
                                  match pb with PubAccept => Some true | PubError => Some false | PubPanic => None end)
   | PDisabled => fun _ _ => ([], Some false)          (* ErrOutputInNoPublisherHandler *)
-  | PNil => fun _ _ => ([], None)                     (* a decorator calls Publish on a nil interface *)
+  | PNil => fun _ _ => ([], Some false)               (* AddHandler stored disabledPublisher{} for the nil publisher (repaired) *)
   end.
 Definition pdec_sem (d : N) (p : pfun) : pfun :=
   fun t outs => let '(tr, r) := p t outs in (EPubDec d t (map (fun o => fst (fst o)) outs) :: tr, r).
@@ -272,48 +272,39 @@ Definition own_ctx (d : delivery) (m : M) : uctx :=
   if N.eqb m 0 then d_uctx d else (m, N.even m).
 
 (** publishProducedMessages *)
-(** [nilwrap = true]: the behaviour before the fix "publisher decorators are not put around a nil
-    publisher": with a decorator registered h.publisher was the decorator around nil, so the decorators
-    saw the batch and the innermost Publish on nil panicked (recovered: Nack) — and when the handler
-    stopped, handler.run called Close on it ([publisher_close_panics]).  The code under test: [false]. *)
-Definition publish_outs_gen (nilwrap : bool) (h : hcfg) (s : started) (d : delivery) (cin : ctxv) (outs : list M)
+Definition publish_outs (h : hcfg) (s : started) (d : delivery) (cin : ctxv) (outs : list M)
   : list ev * option bool :=
   match outs with
   | [] => ([], Some true)
   | _ =>
-      let call := decorate_pub (s_pubdecs s) (base_pub h (d_pb d)) (h_pubtopic h)
-                               (map (fun m => (m, out_ctx h cin m, own_ctx d m)) outs) in
-      match h_pub h with
-      | PNil => match nilwrap, s_pubdecs s with
-                | true, _ :: _ => call
-                | _, _ => ([], Some false)             (* h.publisher == nil: ErrOutputInNoPublisherHandler *)
-                end
-      | _ => call
-      end
+      decorate_pub (s_pubdecs s) (base_pub h (d_pb d)) (h_pubtopic h)
+                   (map (fun m => (m, out_ctx h cin m, own_ctx d m)) outs)
   end.
-Definition publish_outs := publish_outs_gen false.
 
-(** handler.run when its loop ends: if h.publisher != nil { h.publisher.Close() } — a decorator that embeds
+(** handler.run when its loop ends: if h.publisher != nil { h.publisher.Close() }.
+    [pinned = true] (before the fix "a handler added with a nil publisher gets the no-publisher stand-in"):
+    with a publisher decorator registered h.publisher was the decorator around nil; a decorator that embeds
     its publisher (the library's MessageTransformPublisherDecorator) forwards Close to nil: the handler
-    goroutine panics, nobody recovers *)
-Definition publisher_close_panics (nilwrap : bool) (h : hcfg) (s : started) : bool :=
+    goroutine panics and nobody recovers.  (For one message the two variants look alike: the decorators see
+    the batch, then Publish on nil panicked and was recovered => Nack / the stand-in returns
+    ErrOutputInNoPublisherHandler => Nack.) *)
+Definition publisher_close_panics (pinned : bool) (h : hcfg) (s : started) : bool :=
   match h_pub h, s_pubdecs s with
-  | PNil, _ :: _ => nilwrap
+  | PNil, _ :: _ => pinned
   | _, _ => false
   end.
 
 (** the whole life of one copy in handler h *)
-Definition dispatch_gen (nilwrap : bool) (h : hcfg) (s : started) (d : delivery) : list ev :=
+Definition dispatch (h : hcfg) (s : started) (d : delivery) : list ev :=
   let '(tin, cin) := decorate_sub h (s_subdecs s) (d_ctx d) in
   let fn : hfun := fun c => ([EFn (h_fn h) c], fn_outcome h (d_out d)) in
   let '(tch, oc) := build (s_chain s) (h_name h) fn cin in
   match oc with
   | Ret outs =>
-      let '(tp, r) := publish_outs_gen nilwrap h s d cin outs in
+      let '(tp, r) := publish_outs h s d cin outs in
       tin ++ tch ++ tp ++ [ESettle match r with Some true => true | _ => false end]
   | _ => tin ++ tch ++ [ESettle false]
   end.
-Definition dispatch := dispatch_gen false.
 
 Definition receives (d : delivery) (hs : hstate) : bool :=
   match hs_started hs with
